@@ -1535,7 +1535,8 @@ def retry_api(rng, name):
     names_a = ["Get", "Put", "Scan", "Touch", "Drop", "Peek", "Sync", "Mark"]
     names_b = ["Get", "Put", "Other"]
     for n in names_a:
-        sa.rpc(n, P + ".Req", P + ".Reply")
+        # some methods return google.protobuf.Empty (the clients have a separate call site for those)
+        sa.rpc(n, P + ".Req", ".google.protobuf.Empty" if n in ("Drop", "Touch", "Mark") else P + ".Reply")
     for n in names_b:
         sb.rpc(n, P + ".Req", P + ".Reply")
     # a paginated method named in an entry with a retry policy: the default and any explicit retry apply to every page fetch
@@ -1982,8 +1983,18 @@ def mixin_api(rng, name, mixins, rules_mode, own_iam=None, add_iam=False, transp
                 api.tags.add("mixin-additional-binding-other-uri")
             doc_rules[sel] = r1
     api.info["rule_by_selector"] = doc_rules
+    # google.api.Http: when several rules name one selector, the LAST one is in effect (a generic block followed by overrides)
+    shadowed = []
+    for sel, r in doc_rules.items():
+        if rng.random() < 0.3:
+            verb = [k for k in r if k in ("get", "post", "delete")][0]
+            old = {"selector": sel, ("post" if verb == "get" else verb): r[verb].replace(prefix + "/", "/v0/overridden/")}
+            if verb == "get" or "body" not in r:
+                old["body"] = "*"
+            shadowed.append(old)
+            api.tags.add("mixin-selector-listed-twice")
     text = service_yaml(api, mixins=mixins, rules={m: [] for m in mixins},
-                        extra_rules=[{"selector": sel, **r} for sel, r in doc_rules.items()])
+                        extra_rules=shadowed + [{"selector": sel, **r} for sel, r in doc_rules.items()])
     api.aux["service-yaml"] = ("svc.yaml", text)
     api.options = [f"transport={transport}", "autogen-snippets=false"] + (["add-iam-methods"] if add_iam else [])
     api.info.update(pkg=pkg, version=ver, ns=["vp"], name=name, host=f"{name}.googleapis.com")
